@@ -8,9 +8,12 @@ NOT a theorem: it is validated differentially only (harness/c09*.go), see meta/C
 -/
 import JsonV.Model.V1
 import JsonV.Lemmas.V1L
+import JsonV.Lemmas.V1Fmt
+import JsonV.Props.C01
+import JsonV.Props.C12
 
 namespace JsonV.Props.C09
-open JsonV JsonV.Model.V1 JsonV.Lemmas.V1L
+open JsonV JsonV.Model.V1 JsonV.Lemmas.V1L JsonV.Lemmas.V1Fmt
 
 /-- The output of `appendHTMLEscape` contains none of the bytes `<`, `>`, `&` and no `E2 80 A8` / `E2 80 A9`
 (U+2028, U+2029) — for every input, including ill-formed UTF-8. -/
@@ -64,12 +67,141 @@ for every byte string — with or without pre-existing escapes — the escaped t
 same bytes once the five escapes are undone.  For JSON texts this says that the value is unchanged. -/
 def htmlEscape_unescape_full : Prop := ∀ b : Bytes, unescape (htmlEscape b) = unescape b
 
-/-- NOT proved here (the classic grammar is proved by slice `wire`; validated three-way on every generated input):
-the recogniser that models `v1.Valid` accepts exactly what the classic scanner accepts.  `classicValid` is a
-parameter: the toolchain's `encoding/json.Valid`. -/
-def v1_valid_eq_classic_full (classicValid : Bytes → Bool) : Prop := ∀ b : Bytes, valid b = classicValid b
+/-! ## v1.Valid — through slice C01's validator and grammar
 
-/-- NOT proved: the fuel of `valid` (`length + 1`) is never exhausted, i.e. more fuel never changes the answer. -/
-def valid_fuel_suffices_full : Prop := ∀ (b : Bytes) (n : Nat), b.length + 1 ≤ n → run n b [] Mode.value = valid b
+`valid` is DEFINED as C01's model of `ReadValue` + `CheckEOF` at the two flags `checkValid` sets; that is what the Go
+code does (/repo/v1/scanner.go:26-44), so the equation below is definitional and the substance is C01's theorem. -/
+
+theorem v1valid_eq_validate (b : Bytes) : valid b = Model.Validate.isValid permissive b := rfl
+
+/-- **v1.Valid accepts only RFC 8259 texts**: `ws value ws` with arbitrary bytes ≥ 0x20 in strings (no UTF-8
+requirement), any `\uXXXX`, duplicate member names allowed, nesting depth at most 10000 (corollary of C01.valid_sound). -/
+theorem v1valid_sound (b : Bytes) (h : valid b = true) :
+    Spec.Grammar.JText ⟨false, true⟩ 10000 (Props.C01.nameKey permissive) b := by
+  have := Props.C01.valid_sound permissive b h
+  rw [Props.C01.tie_maxDepth] at this
+  exact this
+
+/-- The model never runs out of fuel (C01.valid_no_fuel): the verdict is a verdict about the text. -/
+theorem v1valid_no_fuel (b : Bytes) : (Model.Validate.validText permissive b).2 ≠ .fuel :=
+  Props.C01.valid_no_fuel permissive b
+
+/-- NOT proved (inherited from C01.valid_complete_full): every text of that grammar is accepted. -/
+def v1valid_complete_full : Prop :=
+  ∀ b : Bytes, Spec.Grammar.JText ⟨false, true⟩ 10000 (Props.C01.nameKey permissive) b → valid b = true
+
+/-- TRUSTED ASSUMPTION, stated explicitly: the classic scanner (encoding/json/scanner.go `checkValid`) accepts exactly
+the same grammar — by its documentation (RFC 8259 syntax; invalid UTF-8 and duplicate names are not syntax errors;
+`maxNestingDepth = 10000`).  `classicValid` is a parameter: the toolchain's `encoding/json.Valid`.  Validated
+three-way (model = v1 = encoding/json) on every generated input by harness/c09_model.go; never used as a hypothesis
+of a theorem. -/
+def classic_valid_same_grammar_assumption (classicValid : Bytes → Bool) : Prop := ∀ b : Bytes, valid b = classicValid b
+
+/-- NOT proved: the independent push-down recogniser of Model/V1.lean agrees with `valid` (checked on every input). -/
+def validPda_eq_valid_full : Prop := ∀ b : Bytes, validPda b = valid b
+
+/-! ## v1.Compact and v1.Indent — through slice C12's token-level format model -/
+
+/-- v1.Compact is C12's `compact` (AppendFormat with the raw-preserving flags). -/
+theorem v1compact_eq_format (src : Bytes) : compact src = Fmt.compact src := rfl
+
+/-- **Compact preserves the meaning**: the output has exactly the tokens of the input — strings and numbers byte
+for byte, same structure and member order; only whitespace differs (C12.format_meaning). -/
+theorem v1compact_meaning (src out : Bytes) (h : compact src = some out) : Fmt.tokenize out = Fmt.tokenize src :=
+  Props.C12.format_meaning Fmt.compactOpts ⟨rfl, rfl⟩ src out h
+
+/-- Compacting the output again changes nothing. -/
+theorem v1compact_idem (src out : Bytes) (h : compact src = some out) : compact out = some out :=
+  Props.C12.compact_idem src out h
+
+/-- Compact, Indent (ANY prefix and indent) and the tokenizer succeed on exactly the same texts. -/
+theorem v1_compact_indent_succeed_together (pre ind src : Bytes) :
+    (compact src).isSome = (Fmt.tokenize src).isSome ∧ (indent pre ind src).isSome = (Fmt.tokenize src).isSome := by
+  refine ⟨Props.C12.format_ok_iff_partial _ src, ?_⟩
+  unfold indent
+  split
+  · rw [Option.isSome_map]; exact Props.C12.format_ok_iff_partial _ src
+  · rw [Option.isSome_map]; exact Props.C12.format_ok_iff_partial _ src
+
+/-- Blank prefix and indent (spaces and tabs): v1.Indent is C12's `indent` followed by the source's trailing whitespace. -/
+theorem v1indent_blank_eq_format (pre ind src : Bytes) (hp : isBlank pre = true) (hi : isBlank ind = true) :
+    indent pre ind src = (Fmt.indent pre ind src).map (· ++ trailingWs src) := by
+  simp [indent, hp, hi]
+
+example : isBlank [0x20, 0x09] = true ∧ isBlank [] = true := by decide
+
+/-- **v1.Indent for EVERY prefix and indent** (blank or not, any bytes): the tokens of the source rendered one element
+per line with the literal prefix and `indent^depth` after each newline, then the source's trailing whitespace.  For
+non-blank prefix/indent this says that the placeholder emulation of /repo/v1/indent.go (format with spaces of the
+same lengths, overwrite them line by line) computes exactly the classic layout. -/
+theorem v1indent_eq_render (pre ind src : Bytes) :
+    indent pre ind src = (Fmt.tokenize src).map (fun ts => Fmt.render (litOpts pre ind) ts ++ trailingWs src) := by
+  unfold indent
+  split
+  · simp only [Fmt.indent, Fmt.format]
+    cases Fmt.tokenize src <;> rfl
+  · simp only [Fmt.indent, Fmt.format]
+    cases ht : Fmt.tokenize src with
+    | none => rfl
+    | some ts =>
+      have hw := Fmt.tokenize_sound' src ts ht
+      simp only [Option.map]
+      have := replacePH_render pre ind ts hw.1
+      simp only [phOpts] at this
+      rw [this]
+
+/-- Non-blank prefix or indent, line by line: the output is the blank-formatted text (placeholders of the same
+lengths) with the SAME lexemes in the same order, where each newline is followed by `prefix ++ indent^k` instead of
+`len(prefix) + k·len(indent)` spaces — and nothing else differs. -/
+theorem v1indent_nonblank_lines (pre ind src out : Bytes) (h : indent pre ind src = some out) :
+    ∃ ts, Fmt.WellNested ts ∧
+      Fmt.indent (spaces pre.length) (spaces ind.length) src = some (Fmt.render (phOpts pre ind) ts) ∧
+      out = Fmt.render (litOpts pre ind) ts ++ trailingWs src ∧
+      (Fmt.pieces (litOpts pre ind) [.top0] ts).map Prod.snd = (Fmt.pieces (phOpts pre ind) [.top0] ts).map Prod.snd ∧
+      (∀ k, Fmt.nl (litOpts pre ind) k = 0x0A :: (pre ++ Fmt.repeatBytes ind k)) ∧
+      (∀ k, Fmt.nl (phOpts pre ind) k = 0x0A :: spaces (pre.length + k * ind.length)) := by
+  rw [v1indent_eq_render] at h
+  cases ht : Fmt.tokenize src with
+  | none => simp [ht] at h
+  | some ts =>
+    simp only [ht, Option.map, Option.some.injEq] at h
+    refine ⟨ts, Fmt.tokenize_sound' src ts ht, ?_, h.symm, ?_, nl_lit pre ind, nl_ph pre ind⟩
+    · simp [Fmt.indent, Fmt.format, ht, phOpts]
+    · rw [Fmt.pieces_map_snd, Fmt.pieces_map_snd]
+
+/-- **The D4 clause**: the output is a body that ends in a non-whitespace byte followed by EXACTLY the trailing
+whitespace of the source — the body does not depend on it being there, and nothing of it is rewritten. -/
+theorem v1indent_trailing_ws_kept (pre ind src out : Bytes) (h : indent pre ind src = some out) :
+    (∃ body, out = body ++ trailingWs src) ∧ trailingWs out = trailingWs src := by
+  rw [v1indent_eq_render] at h
+  cases ht : Fmt.tokenize src with
+  | none => simp [ht] at h
+  | some ts =>
+    simp only [ht, Option.map, Option.some.injEq] at h
+    subst h
+    refine ⟨⟨_, rfl⟩, ?_⟩
+    obtain ⟨X, c, hX, hc⟩ := render_end (litOpts pre ind) ts (Fmt.tokenize_sound' src ts ht)
+    rw [hX]
+    exact trailingWs_append X c _ hc (trailingWs_allWs src)
+
+/-- Blank prefix and indent: Indent preserves the meaning (the trailing whitespace included in the output). -/
+theorem v1indent_blank_meaning (pre ind src out : Bytes) (hp : isBlank pre = true) (hi : isBlank ind = true)
+    (h : indent pre ind src = some out) : Fmt.tokenize out = Fmt.tokenize src := by
+  rw [v1indent_blank_eq_format pre ind src hp hi] at h
+  cases hf : Fmt.indent pre ind src with
+  | none => simp [hf] at h
+  | some body =>
+    simp only [hf, Option.map, Option.some.injEq] at h
+    subst h
+    have hm := Props.C12.format_meaning ⟨pre, ind, true, true, false⟩ ⟨isBlank_allWs pre hp, isBlank_allWs ind hi⟩ src body hf
+    obtain ⟨ts, hts, _, _⟩ := (Props.C12.format_eq_some _ src body).mp hf
+    rw [hts] at hm ⊢
+    exact tokenize_append_ws body _ ts hm (trailingWs_allWs src)
+
+/-- hypotheses are satisfiable: `[1]` + newline + two spaces, prefix `>`, indent `--` (the D4 repro) -/
+example : Fmt.tokenize [0x5B, 0x31, 0x5D, 0x0A, 0x20, 0x20] = some [.ba, .num [0x31], .ea] := by decide
+example : trailingWs [0x5B, 0x31, 0x5D, 0x0A, 0x20, 0x20] = [0x0A, 0x20, 0x20] := by decide
+example : Fmt.render (litOpts [0x3E] [0x2D, 0x2D]) [.ba, .num [0x31], .ea] =
+    [0x5B, 0x0A, 0x3E, 0x2D, 0x2D, 0x31, 0x0A, 0x3E, 0x5D] := by decide
 
 end JsonV.Props.C09
